@@ -154,6 +154,18 @@ def run(repo: Repo, chk: Check) -> None:
                {'outcomes': len(g_ok), 'reference_outcomes': len(r_ok), 'unexpected': extra_o, 'missing': miss if not trunc else [],
                 'failures': [o['exc'] for o in g_fail][:2], 'protected_left': [o.get('protected') for o in prot]},
                what=f'{desc}: interpreter outcome {extra_o or [o["exc"] for o in g_fail][:1] or "none"} ; reference outcome {miss or sorted(r_ok)[:1]}')
+        # the same case inside `DIP 2 { ... }`: two foreign items in the protected prefix must be out of reach and the visible result the same
+        if not r_fail:
+            q2, got2, _ = run_case(repo, prim, args, stack, unroll=5 if thorough else 3, protect=2)
+            g2_ok = {key(o) for o in got2 if o['kind'] == 'stack' and o.get('prefix_ok')}
+            bad2 = [o for o in got2 if o['kind'] == 'raise' or (o['kind'] == 'stack' and (not o.get('prefix_ok') or o.get('protected') != 0))]
+            trunc2 = any(o['kind'] == 'truncated' for o in got2)
+            ok2 = g2_ok <= r_ok and (trunc2 or r_ok <= g2_ok) and not bad2 and bool(g2_ok)
+            chk.ob('R-TEMPLATE', q, ok2, f'{desc}: same result with two items in the protected prefix (inside DIP 2)', loc,
+                   {'unexpected': sorted(g2_ok - r_ok)[:1], 'missing': sorted(r_ok - g2_ok)[:1] if not trunc2 else [],
+                    'prefix_touched_or_failed': [o.get('exc', 'protected prefix changed')[:120] if isinstance(o.get('exc', ''), str) else '?' for o in bad2][:2]},
+                   what=f'{desc} inside DIP 2: the instruction reads or moves items of the protected prefix, or its visible result differs: '
+                        f'{sorted(g2_ok - r_ok)[:1] or [o.get("exc", "protected prefix changed") for o in bad2][:1]} ; reference {sorted(r_ok)[:1]}')
     chk.minimum('structural cases', nc, 130)
     chk.minimum('structural instructions', len(prims_seen), 30)
 
@@ -224,7 +236,7 @@ def run(repo: Repo, chk: Check) -> None:
             chk.ob('R-PATH', fi.qualname, bool(pnodes) and path is None, f'protect({expr}) is followed by restore({expr}) on every normal path', fi.loc,
                    {'restore_sites': sorted(n.line for n in rnodes), 'path': g.describe_path(path) if path else None},
                    what=f'{fi.qualname}: a normal path leaves the function after protect({expr}) without restore({expr}): {g.describe_path(path) if path else ""}')
-    chk.minimum('protect sites', npr, 4)
+    chk.minimum('protect sites', npr, 2)  # DIP and DIP n; other users may legitimately index past the protected prefix instead (decided by the DIP-2 variant of every structural case)
 
     # ---- 5 environment reads ------------------------------------------------------------------------------------------------------------
     chk.set_clause('C01.5')
